@@ -90,6 +90,7 @@ func runC09(c *Ctx) {
 		return
 	}
 	ruleInputStream(c, p, roles, "C09")
+	ruleRetry(c, p, roles, "C09.retry")
 	ruleWriterInvariant(c, p, "C09.writer")
 	ruleRebuild(c, p, "C09.rebuild")
 	ruleDict(c, p, "C09.dict")
@@ -104,6 +105,7 @@ func runC09(c *Ctx) {
 	ruleInferByName(c, p, "C09.infer-name")
 	ruleAutoKeepsCompatible(c, p, "C09.auto-keeps")
 	rulePoolSingleDo(c, p, "C09.no-replay")
+	ruleNoCapInEncoders(c, p, "C09.lenonly")
 	ruleForwardEvery(c, p, "C09.forward-every")
 	rulePrepareMethodSet(c, p, "C09.prepare-methodset")
 	// what a round's block carries is what the column encoders of the build in use write
